@@ -43,6 +43,7 @@ Xp = U(Pressure, "wXp")
 Xv = U(Volume, "wXv"); Xv.equals(5 * Xa * Xc)
 Xg.equals(2 * Meter)
 Jib = U(Length, "wJib"); Job = U(Length, "wJob")
+Na = U(Number, "wNa"); Nb = U(Number, "wNb")        # two dimensionless units nobody related to anything
 # prefixes whose value leaves the range of a double (10**-336 is 0.0, 10**336 does not convert)
 Big = measured.Prefix(10, 336); Tiny = measured.Prefix(10, -336); Edge = measured.Prefix(10, -324)
 '''
@@ -60,7 +61,14 @@ UNCONV_PAIRS = [
     ("Xp*Xc", "Xf"), ("Xp*Xd", "Xf"), ("Xs*Xt", "Xa"), ("Xs*Xt", "Xb"), ("Xc*Xd", "Xa**4"),
     ("Xa", "Tiny*Xb"), ("Big*Xa", "Xb"), ("Tiny*Xa", "Xb"), ("Xa", "Big*Xb"), ("Xa", "Edge*Xb"),
     ("Meter", "Tiny*Foot"), ("Big*Meter", "Foot"), ("Xg", "Tiny*Foot"),
+    ("Na", "Nb"), ("Nb", "Na"), ("Na*Meter", "Nb*Meter"), ("Na/Second", "Nb/Second"), ("Na*Xa", "Nb*Xa"),
 ]
+# pairs of the family between which NO chain of declarations exists: converting must fail (with
+# ConversionNotFound), == must be False and the orderings must raise TypeError -- never a value
+IMPOSSIBLE = {("Xa", "Xb"), ("Xb", "Xa"), ("Xa**2", "Xc"), ("Xc", "Xa**2"), ("Xe", "Xb**2"), ("Xa*Xt", "Xb*Xt"),
+              ("Xs", "Xb/Xt"), ("Xf", "Xm*Xb/Xt**2"), ("Xp", "Xf/Xb**2"), ("Xa**-1", "Xb**-1"), ("Xa", "Meter"),
+              ("Meter", "Xa"), ("Meter*Xa", "Foot*Xb"), ("Xv", "Xb*Xc"), ("Xs*Xt", "Xb"),
+              ("Na", "Nb"), ("Nb", "Na"), ("Na*Meter", "Nb*Meter"), ("Na/Second", "Nb/Second"), ("Na*Xa", "Nb*Xa")}
 
 OPS = ("in_unit", "add", "sub", "eq", "lt", "le", "gt", "ge")
 ALLOWED = {
@@ -246,6 +254,27 @@ def judge(rep: report.Report, mode: str, normal: Dict[str, Any], opt: Dict[str, 
                           f"{exn} escapes from {op} on {lab} ({which} mode): "
                           f"{bad[0][3] if bad else ''}",
                           replay_body(op, cu, cv, prelude, float(m["x"]), float(m["y"])))
+        # (a') an impossible conversion never yields a value
+        if mode == "unconv" and tuple(pair) in IMPOSSIBLE:
+            for which, pp in (("normal", paths), ("-O", paths2)):
+                if op in ("in_unit", "add", "sub"):
+                    wrong = [p for p in pp if p[0] == "num"]
+                elif op == "eq":
+                    wrong = [p for p in pp if p[0] == "bool" and P.check(parse(p[1]), parse(p[2]))[0] != "unsat"]
+                else:
+                    wrong = [p for p in pp if p[0] == "bool"]
+                rep.ob("unsat" if not wrong else "sat", f"{name}:{which}:impossible-conversion-yields-no-value", key)
+                if wrong:
+                    m = P.shaped_model([parse(wrong[0][1])], [X, Y]) or {"x": Fraction(1), "y": Fraction(1)}
+                    body = replay_body(op, cu, cv, prelude, float(m["x"]), float(m["y"])).replace(
+                        "if o[0] == 'exc' and o[1] not in",
+                        "if o[0] == 'ok' and not (" + repr(op) + " == 'eq' and o[1] == 'False'):\n"
+                        "    print('REPRODUCED: an impossible conversion yields a value:', o); sys.exit(1)\n"
+                        "if o[0] == 'exc' and o[1] not in")
+                    rep.violation(f"C07:impossible-yields-a-value:{lab}:{op}",
+                                  f"{op} on {lab} ({which} mode) returns a value although no chain of declarations "
+                                  f"relates the two units", body)
+                    break
         # (b) -O changes nothing: same regions, same values
         def regions(pp: List[Tuple]) -> Dict[str, Any]:
             reg: Dict[str, Any] = {}
